@@ -194,6 +194,13 @@ func (fr *frame) pos() string {
 	return fr.fn.String() + " " + fr.i.prog.Fset.Position(p).String()
 }
 
+func (i *interpreter) whereShort() string {
+	if i.curFrame == nil {
+		return ""
+	}
+	return shortPos(i.curFrame.pos())
+}
+
 func (fr *frame) stack() string {
 	var sb strings.Builder
 	for f := fr; f != nil; f = f.caller {
@@ -725,6 +732,7 @@ func runFrame(fr *frame) {
 				panic(pathEnd{reason: "step-budget"})
 			}
 			fr.curInstr = instr
+			i.curFrame = fr
 			if i.trace {
 				if v, ok := instr.(ssa.Value); ok {
 					fmt.Fprintf(os.Stderr, "%*s  %s = %s\n", depthOf(fr), "", v.Name(), instr)
